@@ -200,9 +200,14 @@ def Cov.kGrad : Cov α → List α → List α → List α
   | .pow l p ad, x, y =>
     let xs := select ad x; let ys := select ad y
     let bk := l.k xs ys
-    -- `where(base_k > 0, p * base_k ** (p - 1) * base_grad, 0.0)`: a base value that underflowed to 0
-    -- (or is not positive) contributes 0 instead of `0 ** (p - 1) * 0 = nan`
-    expand ad y.length ((l.kGrad xs ys).map fun bg => if 0 < bk then p * rpow bk (p - 1) * bg else 0)
+    -- `where((base_k == 0) & (p < 1), 0.0, p * base_k ** (p - 1) * base_grad)`: only a base value that is
+    -- exactly 0 (underflowed) under an exponent `p < 1` contributes 0 instead of `0 ** (p - 1) * 0 = nan`;
+    -- every other base value — negative ones included — keeps the chain rule.
+    -- `base_k == 0` is written `¬ (0 < bk) ∧ ¬ (bk < 0)` (the model has `LT` only); this differs from
+    -- Python's `==` only for a NaN base value (there, for `p < 1`, the model gives 0 and the code NaN),
+    -- which is outside the model: the theorems are at α = ℝ and the harness feeds finite values.
+    expand ad y.length ((l.kGrad xs ys).map fun bg =>
+      if (¬ (0 < bk) ∧ ¬ (bk < 0)) ∧ p < 1 then 0 else p * rpow bk (p - 1) * bg)
 
 /-- Every index of every node is in range for the width it sees. -/
 def Cov.WF : Cov α → Nat → Bool
